@@ -200,9 +200,17 @@ impl Adversary {
             Arc::new(quinn::TokioRuntime),
         )
         .unwrap();
-        endpoint.set_default_client_config(quinn::ClientConfig::new(Arc::new(
+        let mut client_cfg = quinn::ClientConfig::new(Arc::new(
             quinn::crypto::rustls::QuicClientConfig::try_from(client_crypto).unwrap(),
-        )));
+        ));
+        // nouni=1: the adversary grants no unidirectional streams, so the listener can never send its half of anemo's
+        // handshake: TLS completes (the connection is admitted) but the connection is never established
+        if a.get("nouni") == Some(&"1") {
+            let mut t = quinn::TransportConfig::default();
+            t.max_concurrent_uni_streams(0u32.into());
+            client_cfg.transport_config(Arc::new(t));
+        }
+        endpoint.set_default_client_config(client_cfg);
         let responses: Responses = Default::default();
         let peer_id = if k == "e" { None } else {
             let raw = rcgen::PublicKeyData::der_bytes(&certs::ed_keypair(k.parse().unwrap())).to_vec();
